@@ -939,7 +939,8 @@ Definition check (c : sexp) : sexp :=
                                              | None => false
                                              end
                       then v_mismatch "validated-document-fails-c04-node-checks" []
-                      else if (std =? 0) && match chosen_op ctxT aops opname with
+                      else if (std =? 0) && match field1 "proj" l with Some b => match as_bool b with Some false => false | _ => true end | None => true end
+                                    && match chosen_op ctxT aops opname with
                                              | Some ao => negb (projections_ok E (ao_vardefs ao) afrs (ao_body ao))
                                              | None => false
                                              end
@@ -957,7 +958,12 @@ Definition check (c : sexp) : sexp :=
                               ++ (if existsb (sexp_exists (is_field_with is_gen)) body then ["list-or-object-argument"] else [])
                               ++ (match xvars with [] => [] | _ => ["list-or-object-variable-value-given"] end)
                               ++ (if (std =? 0) && match chosen_op ctxT aops opname with Some _ => true | None => false end
-                                  then ["theorem-hypotheses-hold"; "c04-node-checks-silent"; "c04-accepts-every-projection"] else [])
+                                  then ["theorem-hypotheses-hold"; "c04-node-checks-silent"] ++
+                                       (match field1 "proj" l with
+                                        | Some b => match as_bool b with Some false => [] | _ => ["c04-accepts-every-projection"] end
+                                        | None => ["c04-accepts-every-projection"]
+                                        end)
+                                  else [])
                               ++ (match field1 "varshape" l with
                                   | Some (SSym sh) =>
                                       if String.eqb sh "map" then []
